@@ -14,7 +14,8 @@ PROP = "C14"
 RULE = ("Hypothesis draws a tissue (1..40 cells incl. sub-tissues), sampling, id numbering with gaps, random stored "
         "edge directions (=> positive and negative references), loop start, wrap width 1..100 (continuation lines, "
         "trailer alone on a line), edge styles (density / density+attribute / other attribute / bare), orphan vertices "
-        "and edges, coordinate scale 1e-3..1e6, CRLF or LF; an independent serialiser writes the dump and the parse "
+        "and edges, coordinate scale 1e-3..1e6, CRLF or LF, densities per interface or per mesh edge (zero and values "
+        "rounding to zero included), records in ascending or arbitrary order; an independent serialiser writes the dump and the parse "
         "is compared with the generating model. Non-trivial = dump has a negative edge reference, a wrapped face and "
         "an id gap; distinct = fingerprint of drawn parameters.")
 ASSUMPTIONS = [
@@ -39,6 +40,8 @@ def params(draw, tier):
     p["orphans"] = draw(st.sampled_from([0, 0, 1, 2, 3]))
     p["coord_logscale"] = draw(st.sampled_from([0.0, 0.0, -3.0, 2.0, 6.0]))
     p["single"] = draw(st.sampled_from([False, False, False, True]))
+    p["per_edge_density"] = draw(st.sampled_from([False, True]))
+    p["shuffle_records"] = draw(st.sampled_from([False, False, True]))
     return p
 
 
@@ -57,7 +60,9 @@ def check_case(p, ctx):
         t = t.subtissue([sorted(t.cells)[0]])
     nint = gen.n_int_func(t, p)
     m = se_writer.model_from_tissue(t, nint, p["wseed"], coord_scale=10.0 ** p["coord_logscale"], gaps=p["gaps"],
-                                    styles=tuple(p["styles"]), orphans=p["orphans"])
+                                    styles=tuple(p["styles"]), orphans=p["orphans"],
+                                    per_edge_density=bool(p.get("per_edge_density")),
+                                    shuffle_records=bool(p.get("shuffle_records")))
     text = se_writer.write_dump(m, wrap=p["wrap"], newline=p["newline"], trailer_alone=p["trailer_alone"])
     d = tempfile.mkdtemp(prefix="c14_")
     try:
@@ -131,6 +136,10 @@ def check_case(p, ctx):
         neg = any(e < 0 for f in m.faces for e in f[1])
         wrapped = any(len(f[1]) > p["wrap"] or p["trailer_alone"] for f in m.faces)
         ctx.count("styles:" + "+".join(p["styles"]))
+        if p.get("per_edge_density"):
+            ctx.count("per-edge-densities(incl. zero)")
+        if p.get("shuffle_records"):
+            ctx.count("records-not-in-ascending-order")
         if p["orphans"]:
             ctx.count("has-orphans")
         if p["newline"] == "\n":
